@@ -1543,9 +1543,15 @@ def r03_6_foreign_tags(ctx):
         for g, p in a:
             g2 = f.copies.expand(g)
             t, pol = canon_atom(g2, p)
-            if pol and isinstance(g2, ast.Compare) and len(g2.ops) == 1 and isinstance(g2.ops[0], (ast.In, ast.NotIn)) \
-                    and norm(g2.left) == 'self.__registered_classes[%s.tag]' % node:
-                return True
+            if pol and isinstance(g2, ast.Compare) and len(g2.ops) == 1 and isinstance(g2.ops[0], (ast.In, ast.NotIn)):
+                want = 'self.__registered_classes[%s.tag]' % node
+                if norm(g2.left) == want:
+                    return True
+                # a local bound in several places (once per branch): what reaches this test
+                if isinstance(g2.left, ast.Name) and isinstance(g, ast.Compare) and isinstance(g.left, ast.Name):
+                    ds = reaching_defs(f, g, g.left.id)
+                    if ds and all(isinstance(d, ast.Assign) and norm(d.value) == want for d in ds):
+                        return True
         return False
     mem = branch_nodes(f, _member)
     for ret in finals:
